@@ -309,12 +309,12 @@ func checkLinearizable(k *kernel.K, ops []*op, m model) {
 	switch porcupine.CheckOperationsTimeout(pm, hist, 5*time.Second) {
 	case porcupine.Ok:
 		k.Probe("porcupine-ok")
-		k.Info["porcupine_ok"] = 1
+		k.Info["porcupine_ok"] = float64(1)
 	case porcupine.Unknown:
 		k.Probe("porcupine-unknown-inconclusive")
-		k.Info["porcupine_unknown"] = 1
+		k.Info["porcupine_unknown"] = float64(1)
 	case porcupine.Illegal:
-		k.Info["porcupine_illegal"] = 1
+		k.Info["porcupine_illegal"] = float64(1)
 		class, first := "nonlinearizable:?", ""
 		if c := firstInexplicable(pm, ops); c != nil {
 			class = "nonlinearizable:" + c.kind + "->" + classOf(c)
